@@ -2,6 +2,7 @@ package main
 
 import (
 	"fmt"
+	"strings"
 
 	"golang.org/x/tools/go/ssa"
 )
@@ -240,6 +241,9 @@ func ruleR10c(c *Ctx, r *Report) {
 		recv := hdrW.(*ssa.Call).Call.Args[0]
 		okHdr := false
 		for _, o := range origins(recv, originOpts{}) {
+			if o.Kind == "call" && o.Fn != nil && strings.HasPrefix(o.Fn.Name(), "With") {
+				bad = "the wrap header is modified by " + o.Fn.Name() + ": WrapV1 writes pragma, header, payload, index back to back, so any padding announced in the header shifts the payload/index windows off the bytes actually written"
+			}
 			if o.Kind == "call" && funcIs(o.Fn, modV2, "", "NewHeader") {
 				cl, _ := callOf(o.Val)
 				sc, si := callOf(canon(cl.Call.Args[0]))
@@ -253,7 +257,7 @@ func ruleR10c(c *Ctx, r *Report) {
 				}
 			}
 		}
-		if !okHdr {
+		if !okHdr && bad == "" {
 			bad = "the header's data size is not the size of the source obtained by src.Seek(0, io.SeekEnd): payload bytes beyond the announced size end up outside the payload window"
 		}
 	}
